@@ -37,6 +37,9 @@ class C08(Prop):
             cases.append(histlib.gen_c08_case(rnd, rnd.randint(8, 22)))
         return cases
 
+    def corpus(self):
+        return histlib.load_corpus(self.id)
+
     def compare(self, a, b):
         return histlib.compare(a, b)
 
